@@ -548,7 +548,8 @@ func c06CloneReset(c *Ctx) {
 		// one loop over both arrays or one loop per array: every element store sits in a loop counting 0..728
 		full := plainEdges(edgesMatching(b, "bin<<>(ind<+1>(0), alt(729, len(_)))"))
 		loop := len(full) >= 1
-		var sl, sh, sd bool
+		done := plainEdges(edgesMatching(b, "bin<>=>(ind<+1>(0), alt(729, len(_)))"))
+		var sl, sh, sd, copyL, copyH bool
 		for _, blk := range fn.Blocks {
 			for _, ins := range blk.Instrs {
 				if st, ok := ins.(*ssa.Store); ok {
@@ -563,9 +564,17 @@ func c06CloneReset(c *Ctx) {
 					if matches("faddr<#2>(_)", at) && vt.IsInt(0) {
 						sd = true
 					}
+					// one array filled by the loop and then assigned as a whole to the other (c.h = c.l after the loop)
+					if matches("faddr<#1>(_)", at) && matches("load(faddr<#0>(_))", vt) && mustPass(fn, blk, done) {
+						copyH = true
+					}
+					if matches("faddr<#0>(_)", at) && matches("load(faddr<#1>(_))", vt) && mustPass(fn, blk, done) {
+						copyL = true
+					}
 				}
 			}
 		}
+		sl, sh = sl || copyL && sh, sh || copyH && sl
 		r.Check(loop && sl && sh && sd && len(fields) == 3, "C06.clone-reset-exhaustive.reset", c.P.Pos(fn.Pos()), "Reset sets l[i], h[i] = all-ones for i = 0..728 and direction = Absorbing — every field (loop=%v l=%v h=%v direction=%v)", loop, sl, sh, sd)
 	}
 	if f := c.fn("pkg/curl", "NewCurlP81"); f != nil {
